@@ -1,6 +1,9 @@
 import GrmVerif.Extracted
 import GrmVerif.Model.Recover
+import GrmVerif.Model.RecLive
 import GrmVerif.Model.RankImpl
+import GrmVerif.Lemmas.RecEdited
+import GrmVerif.Model.SearchImpl
 import GrmVerif.Drive.C08
 import GrmVerif.Drive.C01
 /-!
@@ -10,8 +13,16 @@ Driver for C05, C06, C07 (error recovery). Request:
 (`op` 0 insert t / 1 delete idx / 2 shift idx; trees as in C08). `which` selects the verdicts:
 5 = C05 (every sequence repairs; the parse is the plain parse of the edited input),
 6 = C06 (the reported set is the reference minimum-cost set, ranked as documented; the reported list
-    is a fixed point of the model of `simplify_repairs`, `RankImpl.simplify`),
-7 = C07 (progress and shape of the error list).
+    is a fixed point of the model of `simplify_repairs`, `RankImpl.simplify`; and the FULL model of
+    `CPCTPlus::recover` — `SearchImpl.recoverImpl`: Dijkstra buckets with node merging, `collect_repairs`,
+    `rank_cnds`, `simplify_repairs`, `apply_repairs` — is run on the driver's own configuration at every
+    error: one `Mr` line per error, compared with the harness' `Ir` line, exactly and in order),
+7 = C07 (progress and shape of the error list; per automaton the hypotheses of the liveness theorem
+    `C07.recovering_parse_returns` — `Cert.check` and the termination certificate `Term.termCheckAdj` —
+    are evaluated and counted (`C liveness_…`), and per input the instrumented driver model `recRunO`
+    is run with the recoverer "continue from the first reported sequence if it repairs": it must
+    return within `2·|w| + 2` iterations when the hypotheses hold, and what it returns must be the
+    reported value flag and error list).
 -/
 namespace GrmVerif.Drive.C05
 open GrmVerif GrmVerif.Rec GrmVerif.Drive GrmVerif.LR GrmVerif.Drive.C08
@@ -106,9 +117,8 @@ def runCfg (G : Grammar) (A : Automaton) (w : List Nat) : Nat → Cfg → Outcom
     | .done o => (o, c)
     | .cont c' => runCfg G A w fuel c'
 
-def itemTok (w : List Nat) : EItem → Nat
-  | .real i => w.getD i 0
-  | .ins t _ => t
+/-- the token of an item of the edited input: the definition the theorems of `Props/C05.lean` use -/
+abbrev itemTok := GrmVerif.C05.itemTok
 
 /-- leaves of a tree parsed over the items `E`, as text in the harness' format -/
 def leafOf (stride toklen : Nat) (w : List Nat) (E : List EItem) (pos tok : Nat) : Tree :=
@@ -136,8 +146,105 @@ structure Ctx where
   stride : Nat
   toklen : Nat
   cap : Nat
+  /-- the automaton passes `Cert.check` and `Term.termCheckAdj`: hypotheses of `C07.recovering_parse_returns` -/
+  live : Bool := false
+  /-- every token costs at least 1 -/
+  costsOk : Bool := true
 
 def N_SHIFTS := 3
+
+/-- the recoverer of the liveness theorem instantiated with what the real recoverer reported for this
+input: at the position of a reported error whose first sequence inserts only tokens of the grammar and
+repairs (`validSeq`), report its sequences and continue from where `applySeq` of the first leaves the
+parser; give up otherwise. It satisfies `C07.ContinuesFromValid` by construction, hence the
+hypotheses of `C07.recovering_parse_returns` (`C07.valid_recoverer_ok`). -/
+def replayRecoverer (X : Ctx) (w : List Nat) (errs : List ErrD) (c : Pos) : Option (Pos × List (List Repair)) :=
+  match errs.find? (fun e => e.laidx == c.pos) with
+  | none => none
+  | some e =>
+    match e.seqs.map (fun s => s.map toRepair) with
+    | [] => none
+    | s0 :: rest =>
+      if s0.all (fun r => match r with | .insert t => t < X.G.ntoks | _ => true) && validSeq X.G X.A w N_SHIFTS c s0 then
+        (applySeq X.G X.A w c s0).map (fun c' => (c', s0 :: rest))
+      else none
+
+/-- C07 liveness, per input: run `recRunO` with the replayed recoverer for `2·|w| + 2` iterations (the
+bound of `C07.recovering_parse_returns`; `feed` gets 64·FUEL) and compare with the reported result -/
+def liveVerdict (X : Ctx) (k : Nat) (i : Inp) : List String :=
+  let w := i.w
+  match recRunO X.G X.A w (replayRecoverer X w i.errs) (64 * FUEL) (2 * w.length + 2) ⟨[X.A.start], 0⟩ [] with
+  | none =>
+    if X.live then [s!"V fail model-of-the-recovering-driver-does-not-return-within-its-bound input={k} w={w}"]
+    else ["C liveness_model_run_without_answer_outside_hypotheses 1"]
+  | some (v, errs) =>
+    let got := errs.map (fun e => (e.pos, e.repairs.length))
+    let want := i.errs.map (fun e => (e.laidx, e.seqs.length))
+    if v == i.tree.isSome && got == want then ["C liveness_model_run_is_the_reported_result 1"]
+    else [s!"V fail model-of-the-recovering-driver-differs-from-the-reported-result input={k} w={w} model-value={v} model-errors={got} reported-value={i.tree.isSome} reported-errors={want}"]
+
+/-! ### the full model of `recover`, error by error (C06 tie) -/
+
+def seqStr (s : RankImpl.Seq) : String := " ".intercalate (s.map prepStr)
+def seqsStr (l : List RankImpl.Seq) : String := if l.isEmpty then "none" else " ; ".intercalate (l.map seqStr)
+
+/-- loop iterations of the modelled search per error -/
+def SEARCH_FUEL : Nat := 6000
+/-- sequences `collect_repairs` may expand per error -/
+def EXPAND_LIMIT : Nat := 3000
+
+/-- `Parser::lr` between two errors, on state stacks: (accepted?, configuration) -/
+def advanceTo (G : Grammar) (A : Automaton) (w : List Nat) : Nat → Pos → Option (Bool × Pos)
+  | 0, _ => none
+  | steps + 1, c =>
+    match feed G A (nextTok G w c.pos) FUEL c.stack with
+    | .shifted s => if c.pos < w.length then advanceTo G A w steps ⟨s, c.pos + 1⟩ else none
+    | .accept s => some (true, ⟨s, c.pos⟩)
+    | .error s => some (false, ⟨s, c.pos⟩)
+    | _ => none
+
+/-- the model's own recovering parse: at every error run `SearchImpl.recoverImpl` from the model's own
+configuration and print what it reports (`Mr input error position state : sequences`). An error whose
+search exceeds the budget is counted, the reported list is echoed and its first sequence is used to go
+on. -/
+def modelWalk (X : Ctx) (k : Nat) (w : List Nat) : Nat → Pos → List ErrD → Nat → List String
+  | 0, _, _, _ => []
+  | budget + 1, c, errs, n =>
+    match advanceTo X.G X.A w (w.length + 2) c with
+    | none => [s!"Mr {k} {n} the-model-of-the-plain-parse-crashes-or-spins"]
+    | some (true, _) => []
+    | some (false, ce) =>
+      let E : SearchImpl.Env := ⟨X.G, X.A, w, X.cost, GrmVerif.Extracted.PARSE_AT_LEAST⟩
+      let hdr := s!"Mr {k} {n} {ce.pos} {ce.stack.headD 0} : "
+      -- the hypotheses of the search theorems (`C06.hyps_decidable`) at this error
+      let hyp := if X.costsOk && SearchImpl.checkHyps E ce then "C errors_within_the_hypotheses_of_the_search_theorems 1"
+        else "C errors_outside_the_hypotheses_of_the_search_theorems 1"
+      let skip (why : String) : List String :=
+        match errs with
+        | [] => [hdr ++ why]
+        | e :: rest =>
+          let r := e.seqs.map (fun s => s.map toPRepair)
+          [hdr ++ seqsStr r, s!"C errors_where_the_model_search_was_skipped_{why} 1"] ++
+          (match r with
+           | [] => []
+           | s0 :: _ =>
+             match RankImpl.applyRepairs X.G X.A w ce s0 with
+             | none => []
+             | some c' => modelWalk X k w budget c' rest (n + 1))
+      match SearchImpl.dijkstra E SEARCH_FUEL ce with
+      | .fuelOut => skip "over_the_node_budget"
+      | .panic => [hdr ++ "model-search-panics"]
+      | .ok cnds =>
+        if (cnds.map (fun m => SearchImpl.countSeqs m.repairs)).sum > EXPAND_LIMIT then skip "over_the_expansion_budget"
+        else
+          match SearchImpl.recoverTail E RankImpl.dedup X.avoid (fun i => X.stride * i + 1)
+              GrmVerif.Extracted.TRY_PARSE_AT_MOST ce cnds with
+          | .ok (c', seqs) =>
+            [hdr ++ seqsStr seqs, "C errors_where_the_full_model_of_recover_ran 1", hyp] ++
+            (if cnds.any (fun m => match m.repairs with | .merge _ _ _ => true | _ => false)
+              then ["C errors_with_merged_success_nodes 1"] else []) ++
+            (if seqs.isEmpty then [] else modelWalk X k w budget c' errs.tail (n + 1))
+          | _ => [hdr ++ "model-post-processing-panics"]
 
 /-- the verdicts for one input; `which` ∈ {5, 6, 7} -/
 partial def judge (X : Ctx) (which : Nat) (k : Nat) (i : Inp) : List String :=
@@ -154,9 +261,13 @@ partial def judge (X : Ctx) (which : Nat) (k : Nat) (i : Inp) : List String :=
     (if allButLast then [] else [s!"V fail error-without-repairs-is-not-last input={k} w={w}"]) ++
     (if i.tree.isSome == allRepaired then [] else [s!"V fail value-iff-all-repaired input={k} w={w} value={i.tree.isSome} allRepaired={allRepaired}"]) ++
     (if las.all (· ≤ w.length) then [] else [s!"V fail error-position-out-of-range input={k} w={w}"]) ++
-    (if i.errs.length ≤ w.length / N_SHIFTS + 1 then [] else [s!"V fail too-many-errors input={k} w={w}"])
+    (if i.errs.length ≤ w.length / N_SHIFTS + 1 then [] else [s!"V fail too-many-errors input={k} w={w}"]) ++
+    liveVerdict X k i
   -- walk through the errors, keeping the edited input
-  let rec go (E : List EItem) (errs : List ErrD) (acc : List String) (n : Nat) : List String :=
+  -- `E` is always `C05.editedItems w.length 0 done` — the edited input the theorems
+  -- `recRun_is_plain_parse_of_edited_input` / `returned_tree_spells_edited_input` speak about — for the
+  -- errors `done` processed so far
+  let rec go (E : List EItem) (done : List Err) (errs : List ErrD) (acc : List String) (n : Nat) : List String :=
     let toks := E.map (itemTok w)
     let (o, c) := runCfg X.G X.A toks fuel (init X.A)
     match errs with
@@ -243,12 +354,17 @@ partial def judge (X : Ctx) (which : Nat) (k : Nat) (i : Inp) : List String :=
         | [] => acc
         | s0 :: _ =>
           let (items, after) := editSeq e.laidx s0
-          let E' := E.take j ++ items ++ ((List.range (w.length - after)).map (fun d => EItem.real (after + d)))
-          go E' rest acc (n + 1)
+          let cut := E.take j ++ items ++ ((List.range (w.length - after)).map (fun d => EItem.real (after + d)))
+          let done' := done ++ [⟨e.laidx, seqs⟩]
+          let E' := GrmVerif.C05.editedItems w.length 0 done'
+          -- cutting the previous edited input at the failing item gives the same list unless the error lies
+          -- inside an earlier first sequence (only possible in a case that fails anyway); counted
+          let acc := if which == 5 && E' != cut then acc ++ ["C edited_input_differs_from_cut_at_failing_item 1"] else acc
+          go E' done' rest acc (n + 1)
       | .accept _ =>
         if which == 5 then acc ++ [s!"V fail error-{n}-reported-but-the-edited-input-parses input={k} w={w} at={e.laidx}"] else acc
       | _ => acc
-  let E0 := (List.range w.length).map EItem.real
+  let E0 := GrmVerif.C05.editedItems w.length 0 []
   -- The driver's OWN semantics on state stacks: parse the real input until the table refuses a lexeme
   -- (the reductions made under that lexeme are kept), check the reported error is there, check every
   -- reported sequence from THAT stack, apply the first one, go on. On a table without conflicts this
@@ -293,7 +409,7 @@ partial def judge (X : Ctx) (which : Nat) (k : Nat) (i : Inp) : List String :=
             | none => [s!"V fail own-semantics: first sequence does not apply input={k} w={w} error={n}"]
             | some c' => realWalk c' rest (n + 1) budget
   let hasConflicts := !X.A.sr.isEmpty || !X.A.rr.isEmpty || C01.precResolved X.G X.A
-  let strict := if which == 7 then [] else go E0 i.errs [] 0
+  let strict := if which == 7 then [] else go E0 [] i.errs [] 0
   let relaxed :=
     if which != 5 || !hasConflicts || strict.all (fun l => l.startsWith "C ") then strict
     else
@@ -307,7 +423,8 @@ partial def judge (X : Ctx) (which : Nat) (k : Nat) (i : Inp) : List String :=
             | v :: fl :: label :: tl => " ".intercalate (v :: fl :: (label ++ "-on-a-table-with-conflicts-conflicting-grammar") :: tl)
             | _ => l
           else l)
-  v7 ++ relaxed
+  let mw := if which != 6 then [] else modelWalk X k w (w.length + 3) ⟨[X.A.start], 0⟩ i.errs 0
+  v7 ++ relaxed ++ mw
 
 def handle (args : List Nat) : String :=
   match parseGrammar args with
@@ -324,13 +441,27 @@ def handle (args : List Nat) : String :=
         match parseInps n rest with
         | none => "bad-request"
         | some inps =>
-          let X : Ctx := ⟨G, A, fun t => costs.getD t 1, fun t => avoid.getD t 0 != 0, stride, toklen, cap⟩
+          -- hypotheses of `C07.recovering_parse_returns` on this automaton: `Cert.check`, and the
+          -- termination certificate (`failAdj … = none ↔ termCheckAdj … = true`, `Term.failAdj_none_iff`)
+          let certOk := which != 7 || (Cert.failing G A).isEmpty
+          let termOk := which != 7 || (C01.termFailure G A).1.isNone
+          let liveCnt := if which != 7 then [] else
+            (if certOk && termOk then ["C liveness_hypotheses_hold 1"] else ["C liveness_outside_hypotheses 1"]) ++
+            (if certOk then [] else ["C liveness_outside_certificate_fails 1"]) ++
+            (if termOk then [] else ["C liveness_outside_termination_not_certified 1"])
+          let X : Ctx := ⟨G, A, fun t => costs.getD t 1, fun t => avoid.getD t 0 != 0, stride, toklen, cap,
+            which == 7 && certOk && termOk, costs.all (· ≥ 1)⟩
           let vs := (List.range inps.length).flatMap (fun k =>
             let i := inps.getD k ⟨[], 0, none, []⟩
             if i.kind != 1 then [] else judge X which k i)
-          let fails := vs.filter (fun l => !l.startsWith "C ")
-          let cnts := vs.filter (fun l => l.startsWith "C ")
-          "\n".intercalate ((if fails.isEmpty then ["V ok"] else fails) ++ cnts)
+          let fails := vs.filter (fun l => !l.startsWith "C " && !l.startsWith "Mr ")
+          -- the decidable hypothesis of the whole-run theorems of C05, evaluated on the dumped table
+          let eofc := if which != 5 then [] else
+            if GrmVerif.C05.eofOk G A then ["C tables_within_the_end_of_input_discipline 1"]
+            else ["C tables_OUTSIDE_the_end_of_input_discipline 1"]
+          let cnts := vs.filter (fun l => l.startsWith "C ") ++ eofc
+          let ms := vs.filter (fun l => l.startsWith "Mr ")
+          "\n".intercalate ((if fails.isEmpty then ["V ok"] else fails) ++ ms ++ cnts ++ liveCnt)
       | _ => "bad-request"
 
 end GrmVerif.Drive.C05
